@@ -208,7 +208,58 @@ def _depends_on(refprog, name, targets):
     return False
 
 
-JUDGES = {"lm": judge_lm, "choice": judge_choice, "limit": judge_limit, "subsume": judge_subsume}
+def lattice_contract(refprog, ctx, rels, functors):
+    """one tuple per key; its lattice value is the join of all values derivable for the key from the final database;
+    every key with a derivable value is present"""
+    diffs = []
+    uni = ctx.uni
+    for name, info in refprog.rels.items():
+        lc = getattr(info, "lattice_cols", [])
+        if not lc:
+            continue
+        if len(lc) != 1:
+            raise EngineError("more than one lattice column")
+        col = lc[0]
+        keycols = [i for i in range(info.arity) if i != col]
+        spec = refprog.lattices[info.type_names[col]]
+        lub = functors[spec["Lub"].name]
+        r = rels[name]
+        items = r.items()
+        for i in range(len(items)):
+            for j in range(i + 1, len(items)):
+                (t1, g1), (t2, g2) = items[i], items[j]
+                agree = g_and(*[uni.eq(t1[c], t2[c]) for c in keycols])
+                diffs.append(("%s:one-tuple-per-key" % name, g_and(g1, g2, agree)))
+        d = _derivable(refprog, ctx, rels, name, functors)
+        ditems = d.items()
+        for t, g in items:
+            join, defined = None, False
+            for dt, dg in ditems:
+                m = g_and(dg, *[uni.eq(t[c], dt[c]) for c in keycols])
+                if m is False:
+                    continue
+                if join is None:
+                    join, defined = dt[col], m
+                else:
+                    join = sym.v_ite(m, sym.v_ite(defined, lub(join, dt[col]), dt[col]), join)
+                    defined = g_or(defined, m)
+            if join is None:
+                diffs.append(("%s:value-is-join-of-derivable" % name, g))
+            else:
+                diffs.append(("%s:value-is-join-of-derivable" % name, g_and(g, g_or(g_not(defined), g_not(uni.eq(t[col], join))))))
+        for dt, dg in ditems:
+            present = g_or(*[g_and(g, *[uni.eq(t[c], dt[c]) for c in keycols]) for t, g in items])
+            diffs.append(("%s:derivable-key-present" % name, g_and(dg, g_not(present))))
+    return diffs
+
+
+def judge_lattice(case, refprog, ctx, db, ex, outs, ref_out):
+    rels = _final_db(refprog, ex.rels, ctx.uni)
+    # relations with auxiliary (lattice) columns are plain relations for the contract
+    return lattice_contract(refprog, ctx, rels, dict(ctx.functors, **case.functors))
+
+
+JUDGES = {"lattice": judge_lattice, "lm": judge_lm, "choice": judge_choice, "limit": judge_limit, "subsume": judge_subsume}
 
 
 # ------------------------------------------------------------------------------------------------ replay
@@ -245,6 +296,9 @@ def replay_contract(case, refprog, facts, real):
     if case.judge == "choice":
         rels = _concrete_rels(refprog, facts, real, uni)
         diffs = choice_contract(refprog, ctx, rels, case.functors)
+    elif case.judge == "lattice":
+        rels = _concrete_rels(refprog, facts, real, uni)
+        diffs = lattice_contract(refprog, ctx, rels, case.functors)
     else:
         inputs = req.concrete_inputs(refprog, facts, uni)
         ref = dl.Reference(refprog, ctx, inputs, max_iter=10000, functors=case.functors)
